@@ -135,5 +135,7 @@ package blocklist
 //@ func (*BlockList).parseHostFile
 //@   abstract
 //@   nosafety all pre
-//@   assert at call (*middleware/blocklist.BlockList).set#1: sameslice(arg1, canon(n)) && !lastret("(*middleware/blocklist.BlockList).Exists") && !lastret("strings.HasPrefix")
-//@   assert at call (*middleware/blocklist.BlockList).Exists#1: sameslice(arg1, canon(n))
+//@   # "the persisted local list reloads to exactly the in-memory list": every name field of a line is stored, as its
+//@   # canonical form, WHATEVER is already blocked - the decision never consults the current list (an entry that another
+//@   # entry covers today is what keeps blocking after that one is removed)
+//@   assert at call (*middleware/blocklist.BlockList).set#1: sameslice(arg1, canon(n)) && !lastret("strings.HasPrefix") && calls("(*middleware/blocklist.BlockList).Exists") == 0
